@@ -80,7 +80,13 @@ func (e *Enc) specCtx(fc *fctx, st *State, guard string) *specCtx {
 			continue
 		}
 		et := a.Type().(*types.Pointer).Elem()
-		if !a.Heap {
+		if m, ok := st.mat[a]; ok {
+			if isStruct(et) && e.m.structOf(et) != nil {
+				sc.vars[name] = SV{Addr: m, Ty: et}
+			} else {
+				sc.vars[name] = SV{T: e.loadAt(st, m, et), Ty: et}
+			}
+		} else if !a.Heap || e.lazy[a] {
 			if t, ok := st.loc[a]; ok {
 				sc.vars[name] = e.svOfTerm(t, et)
 			}
@@ -866,6 +872,9 @@ func (sc *specCtx) call(n *SCall) SV {
 			}
 			return SV{T: fmt.Sprintf("(sf_%s %s)", f.Name, strings.Join(as, " ")), Ty: rt}
 		}
+		if f.Opaque {
+			return sc.opaqueCall(f, args, rt)
+		}
 		// macro expansion
 		saved := sc.vars
 		nv := map[string]SV{}
@@ -894,6 +903,81 @@ func (sc *specCtx) call(n *SCall) SV {
 		return r
 	}
 	return sc.fail("unknown spec function %s", n.Fn)
+}
+
+// expandSpec: macro-expands the body of spec function f on the given arguments.
+func (sc *specCtx) expandSpec(f *SpecFunc, args []SV, rt types.Type) SV {
+	saved := sc.vars
+	nv := map[string]SV{}
+	for k, v := range saved {
+		if strings.HasPrefix(k, "$") {
+			nv[k] = v
+		}
+	}
+	for i, p := range f.Params {
+		a := args[i]
+		a.Ty = sc.typeByName(p.Type)
+		nv[p.Name] = a
+	}
+	sc.vars = nv
+	savedOld := sc.oldVars
+	sc.oldVars = nv
+	r := sc.val(f.Body)
+	sc.vars = saved
+	sc.oldVars = savedOld
+	if r.Nil {
+		r = SV{T: sc.nilOf(rt), Ty: rt}
+	}
+	if isUntypedNum(r.Ty) {
+		r.Ty = rt
+	}
+	return r
+}
+
+// opaqueCall: an opaque spec function is an uninterpreted function of its arguments and of the heap
+// arrays its body reads; the definition is only available (as an equation about this very
+// application) in functions whose contract says `reveal <name>`.
+func (sc *specCtx) opaqueCall(f *SpecFunc, args []SV, rt types.Type) SV {
+	e := sc.e
+	savedRec := e.heapRec
+	e.heapRec = map[string]string{}
+	savedGuard := sc.guard
+	sc.guard = "" // no side assumptions while expanding for analysis
+	body := sc.expandSpec(f, args, rt)
+	bodyT := sc.mat(body)
+	sc.guard = savedGuard
+	rec := e.heapRec
+	e.heapRec = savedRec
+	for k, v := range rec {
+		if savedRec != nil {
+			savedRec[k] = v
+		}
+	}
+	var as, sorts []string
+	for _, a := range args {
+		as = append(as, sc.mat(a))
+		sorts = append(sorts, sc.sortOf(a.Ty))
+	}
+	key := "sfo_" + f.Name
+	for _, h := range sortedKeys(rec) {
+		hd := e.heaps[h]
+		as = append(as, e.heapGet(sc.cur(), h, hd.elem))
+		sorts = append(sorts, hd.sort)
+		key += "_" + sanitize(h)
+	}
+	e.declFun(key, sorts, sc.sortOf(rt))
+	t := fmt.Sprintf("(%s %s)", key, strings.Join(as, " "))
+	if len(as) == 0 {
+		t = key
+	}
+	if e.contract != nil && e.contract.Opts["reveal:"+f.Name] != "" && !strings.Contains(t, "q_") {
+		rk := "reveal|" + t
+		if !e.tinvSeen[rk] {
+			e.tinvSeen[rk] = true
+			e.items = append(e.items, fmt.Sprintf("(assert (= %s %s)) ; reveal %s", t, bodyT, f.Name))
+		}
+	}
+	return SV{T: t, Ty: rt}
 }
 
 func (sc *specCtx) typeFromExpr(x SExpr) types.Type {
